@@ -75,7 +75,7 @@ func vpReleaseVsRebind(prop string) {
 	w.checkAll(prop, "scheduling another pod afterwards")
 }
 
-// BOUND: topology 0; two statefulset pods ss-0, ss-1 bound (symbolic policy); ss-0 disappears without its event being handled (so a resync pass has API calls to make); a resync pass runs and, atomically inside any one window right before/after one of its API-server calls (symbolic window 0..10), ss-1 is re-incarnated: deleted, its event handled, re-created with a new UID, filtered and bound on any approved node. Afterwards no two live pods hold one IP and every live bound pod still owns its IP (a freed IP of a live pod is handed to the next pod)
+// BOUND: topology 0; two statefulset pods ss-0, ss-1 bound (symbolic policy); ss-0 disappears without its event being handled (so a resync pass has API calls to make); a resync pass runs and, atomically inside any one window right before/after one of its API-server calls (symbolic window 0..10), either ss-1 is re-incarnated (deleted, its event handled, re-created with a new UID, filtered and bound on any approved node) or the vanished ss-0 is re-created with a new UID, filtered and bound (parking at the pod key lock the pass holds). Afterwards no two live pods hold one IP and every live bound pod still owns its IP (a freed IP of a live pod is handed to the next pod)
 // ASSUME: C01: interference granularity as in VerifC04_q_resyncVsReincarnation (same scenario, checked under C01)
 func VerifC01_q_resyncVsReincarnation() { vpResyncVsReincarnation("C01") }
 
